@@ -22,7 +22,7 @@
 
    Trusted reading of the OS: rename is atomic, flock is mutually exclusive, a read returns the
    bytes present at one instant.  Not modelled: crashes (property C05), permissions, NFS. *)
-Require Import NArith PeanoNat List Bool.
+Require Import NArith PeanoNat List Bool FMapPositive.
 Import ListNotations.
 Open Scope N_scope.
 
@@ -221,22 +221,44 @@ Definition mem (s : state) (S : list state) : bool :=
 
 (* ---------------------------------------------------------------- exploration and certificate *)
 
+(* cheap fingerprint: the program counters (remaining code lengths) of all processes *)
+Definition key (s : state) : positive :=
+  fold_left (fun acc pr => Pos.of_succ_nat (length (p_code pr)) + 64 * acc)%positive (snd s) 1%positive.
+
+Definition sset := PositiveMap.t (list state).
+
+Definition smem (s : state) (M : sset) : bool :=
+  match PositiveMap.find (key s) M with
+  | Some l => mem s l
+  | None => false
+  end.
+
+Definition sadd (s : state) (M : sset) : sset :=
+  PositiveMap.add (key s)
+    (s :: match PositiveMap.find (key s) M with Some l => l | None => [] end) M.
+
 (* unverified search; its result is CHECKED by closed_check *)
-Fixpoint bfs (fuel : nat) (todo seen : list state) : list state :=
+Fixpoint bfs (fuel : nat) (todo : list state) (seen : sset) : sset :=
   match fuel with
   | O => seen
   | S f =>
       match todo with
       | [] => seen
-      | s :: r => if mem s seen then bfs f r seen else bfs f (succs s ++ r) (s :: seen)
+      | s :: r => if smem s seen then bfs f r seen else bfs f (succs s ++ r) (sadd s seen)
       end
   end.
 
-Definition reach_set (fuel : N) (init : state) : list state := bfs (N.to_nat fuel) [init] [].
+Definition reach_set (fuel : N) (init : state) : sset :=
+  bfs (N.to_nat fuel) [init] (PositiveMap.empty _).
 
-(* S contains init, is closed under every step of every process, and all its states are safe *)
-Definition closed_check (safe : state -> bool) (init : state) (S : list state) : bool :=
-  mem init S && forallb (fun s => safe s && forallb (fun s' => mem s' S) (succs s)) S.
+Definition set_size (M : sset) : nat :=
+  fold_left (fun n kv => (n + length (snd kv))%nat) (PositiveMap.elements M) O.
+
+(* M contains init, is closed under every step of every process, and all its states are safe *)
+Definition closed_check (safe : state -> bool) (init : state) (M : sset) : bool :=
+  smem init M &&
+  forallb (fun kv => forallb (fun s => safe s && forallb (fun s' => smem s' M) (succs s)) (snd kv))
+          (PositiveMap.elements M).
 
 Definition verify (fuel : N) (safe : state -> bool) (init : state) : bool :=
   closed_check safe init (reach_set fuel init).
@@ -263,20 +285,29 @@ Fixpoint run_sched (sched : list nat) (s : state) : option state :=
 Definition next_instr (pr : proc) : option instr :=
   match p_code pr with [] => None | i :: _ => Some i end.
 
+(* reads or modifies directory d or a file in it (create_dir_all is idempotent and not counted) *)
 Definition touches_dir (d : N) (i : instr) : bool :=
   match i with
-  | SkipIfDir d' _ | SkipIfNoDir d' _ | MkDir d' | RemoveDir d' => d' =? d
+  | SkipIfDir d' _ | SkipIfNoDir d' _ | RemoveDir d' => d' =? d
   | SkipIfFile p _ | Trunc p | Append p _ | RemoveFile p | Read p => fst p =? d
   | RenameFile a b => (fst a =? d) || (fst b =? d)
   | RenameDir a b => (a =? d) || (b =? d)
-  | Lock _ | TryLock _ | Unlock _ => false
+  | MkDir _ | Lock _ | TryLock _ | Unlock _ => false
   end.
 
-(* whoever is about to touch directory d holds lock l *)
-Definition guarded (d l : N) (s : state) : bool :=
+Definition writes_dir (d : N) (i : instr) : bool :=
+  match i with
+  | RemoveDir d' => d' =? d
+  | Trunc p | Append p _ | RemoveFile p => fst p =? d
+  | RenameFile a b => (fst a =? d) || (fst b =? d)
+  | RenameDir a b => (a =? d) || (b =? d)
+  | _ => false
+  end.
+
+Definition guarded_by (sel : N -> instr -> bool) (d l : N) (s : state) : bool :=
   forallb (fun pr =>
              match next_instr pr with
-             | Some i => if touches_dir d i
+             | Some i => if sel d i
                          then match holder l (locks (fst s)) with
                               | Some h => h =? p_id pr
                               | None => false
@@ -284,6 +315,11 @@ Definition guarded (d l : N) (s : state) : bool :=
                          else true
              | None => true
              end) (snd s).
+
+(* whoever is about to read or modify directory d holds lock l *)
+Definition guarded := guarded_by touches_dir.
+(* whoever is about to modify directory d holds lock l *)
+Definition guarded_writes := guarded_by writes_dir.
 
 (* every logged read of a file of directory d returned one of the complete contents `ok p`
    (missing file allowed iff allow_missing) *)
